@@ -26,6 +26,8 @@ RtDemands(e) ==
     <<"C01.verb_b", e.vb = bas>>,
     <<"C01.json",   e.js = JsonOf(x)>>,
     <<"C01.xml",    e.xm = XmlOf(x)>>,
+    <<"C01.stable", e.mt2 = ext /\ e.fe2 = ext /\ e.str2 = ext>>,
+    <<"C01.held",   e.held = ext /\ e.heldf = ext>>,          \* a result kept by the caller survives later calls   \* after the caller overwrote the earlier results
     <<"C01.back_e", fitsE => \A i \in 1..5  : e.back[i] = good>>,
     <<"C01.back_b", fitsB => \A i \in 6..10 : e.back[i] = good>>,
     <<"C18.limit_e", ~fitsE => \A i \in 1..5  : e.back[i][1] = 0>>,
@@ -76,7 +78,7 @@ BinDemands(e) ==
 \* C07: order, differences
 CmpDemands(e) ==
   LET a == Dt(e.a)  b == Dt(e.b)
-      inOrd == a.y >= -5000000 /\ a.y <= 5000000 /\ b.y >= -5000000 /\ b.y <= 5000000
+      inOrd == a.y >= -2000000 /\ a.y <= 2000000 /\ b.y >= -2000000 /\ b.y <= 2000000   \* ordinals and their difference fit 32 bits
       diff == IF inOrd THEN Ord(a) - Ord(b) ELSE 0
       inDur == inOrd /\ diff <= DurationRangeDays /\ diff >= -DurationRangeDays
   IN <<
